@@ -34,12 +34,11 @@ class SplineGroove(GrooveBase):
         if not np.isclose(contour_points[0, 1], 0) or not np.isclose(contour_points[-1, 1], 0):
             raise ValueError("first and last element of contour_points should have y coordinate equal to 0")
 
-        # strip boundary
-        contour_points = contour_points[
-            np.logical_not(
-                (np.isclose(np.roll(contour_points[:, 1], 1), 0)) & (np.isclose(np.roll(contour_points[:, 1], -1), 0))
-            )
-        ]
+        # strip boundary (the horizontal face runs at both ends only, vertices in between are never dropped)
+        inner = np.flatnonzero(np.logical_not(np.isclose(contour_points[:, 1], 0)))
+        if inner.size:
+            contour_points = contour_points[inner[0] - 1 : inner[-1] + 2]
+        contour_points = contour_points.copy()
 
         # shift center (the middle of the extent, independent of the sampling density) to 0,0
         contour_points[:, 0] -= (np.min(contour_points[:, 0]) + np.max(contour_points[:, 0])) / 2
